@@ -180,17 +180,31 @@ func VerifSetWallClock(sec int64, nsec int32) { verifFixedSec, verifFixedNsec = 
 
 
 def derive_crash(rep, name):
+    """C06: copies of the files listed in tools/instrument/crashpoints.json with a call
+    verifCrashPoint("<file>:<func>:<n>@L<line>") before every statement of the listed functions."""
     tool = os.path.join(BUILD, "bin", "instrument")
-    cfg = os.path.join(VERIF, "tools/instrument/crashpoints.json")
+    tdir = os.path.join(VERIF, "tools/instrument")
+    if not os.path.exists(tool) or os.path.getmtime(tool) < os.path.getmtime(os.path.join(tdir, "main.go")):
+        r = subprocess.run(["go", "build", "-o", tool, "."], cwd=tdir, capture_output=True, text=True)
+        if r.returncode != 0:
+            infra("cannot build tools/instrument: " + r.stdout + r.stderr)
+    cfg = json.load(open(os.path.join(tdir, "crashpoints.json")))
     outdir = os.path.join(BUILD, "derived", name, "crash")
     os.makedirs(outdir, exist_ok=True)
-    r = subprocess.run([tool, "-repo", REPO, "-cfg", cfg, "-out", outdir], capture_output=True, text=True)
-    if r.returncode != 0:
-        infra("instrument failed: " + r.stdout + r.stderr)
-    for line in r.stdout.splitlines():
-        if line.startswith("MAP "):
-            _, src, dst = line.split(" ", 2)
-            rep[src] = dst
+    points = []
+    for rel, funcs in sorted(cfg.items()):
+        src = os.path.join(REPO, rel)
+        eff = rep.get(src, rsrc(src))
+        dst = os.path.join(outdir, rel.replace("/", "__"))
+        tmp = dst + ".inst%d" % os.getpid()
+        r = subprocess.run([tool, "-in", eff, "-out", tmp, "-label", rel, "-funcs", ",".join(funcs)], capture_output=True, text=True)
+        if r.returncode != 0:
+            infra("instrument %s failed: %s%s" % (rel, r.stdout, r.stderr))
+        write_if_changed(dst, open(tmp, "rb").read())
+        os.remove(tmp)
+        rep[src] = dst
+        points += [l[6:] for l in r.stdout.splitlines() if l.startswith("POINT ")]
+    write_if_changed(os.path.join(outdir, "points.txt"), "\n".join(points) + "\n")
 
 
 def main():
